@@ -207,7 +207,7 @@ Exec(st, S) ==
     [] st.s = "break" -> R2(S, Brk)
     [] st.s = "continue" -> R2(S, Cont)
     [] st.s = "seen" -> IF Expect(S, "seen", st.v) THEN R2(Adv(S), Norm) ELSE R2(S, Drift("seen " \o st.v))
-    [] st.s \in {"pass", "def", "class", "del", "global", "nonlocal"} -> R2(S, Norm)
+    [] st.s \in {"pass", "def", "class", "del", "global", "nonlocal", "annattr"} -> R2(S, Norm)
     [] OTHER -> R2(S, Drift("stmt " \o st.s))
 
 \* one activation: the meta-events it owes and how it completes
